@@ -29,7 +29,9 @@ mod proofs {
             Arc::new(Column { nm: names[1].to_string(), size: 1 }),
             Arc::new(Column { nm: names[2].to_string(), size: 1 })];
         let opts = Options { max_partition_size_bytes: limit as u64 };
-        let (metadata, files) = subpartition(&opts, cols);
+        let (acc, last_column) = subpartition_layout(&opts, cols);
+        let files = &acc.subpartitions;
+        let metadata = &acc.subpartition_metadata;
         kani::cover!(files.len() == 3, "vacuity: one column per file reachable");
         kani::cover!(files.len() == 2, "vacuity: two files reachable");
         kani::cover!(files.len() == 1, "vacuity: single file reachable");
@@ -44,9 +46,10 @@ mod proofs {
                 total += 1;
             }
             let last = files[k][files[k].len() - 1].name();
-            assert!(metadata[k].last_column.as_str() == last, "[keyed-by-last-column] each file is keyed by the last (greatest) column name it holds");
+            assert!(metadata[k].0.len() == files[k].len() && metadata[k].0[files[k].len() - 1].as_str() == last, "[keyed-by-last-column] the name list of a file ends with the last (greatest) column name it holds - the name the file is keyed by");
         }
         assert!(total == 3, "[every-column-once] every column lands in exactly one file");
+        assert!(prev == Some(last_column.as_str()), "[single-file-key] the greatest column name overall is tracked (key bound of a single-file partition)");
     }
     #[kani::proof]
     #[kani::unwind(6)]
